@@ -8,13 +8,15 @@ Model: `Harper/Model/Markdown.lean` (`Markdown::parse` over pulldown-cmark's eve
 `IsolateEnglish` + `is_likely_english`). Helper lemmas: `Lemmas/Markdown.lean`,
 `Lemmas/MarkdownWrap.lean`.
 
-* `mdParse_total`, `mdParse_inbounds`, `mdParse_sorted_covering` — for every text, every inner
-  parser whose tokens tile its input (`PlainEnglish`: `parsePlainFull_tiles`) and every event list
-  satisfying the decidable assumption `EventsOK` (evaluated by the driver on every real event
-  list, op `evok`): `Markdown::parse` does not panic, every token lies inside the text, the tokens
-  that cover characters are increasing and pairwise disjoint, and (if no event has an empty
-  unlintable text, `solidOK`) zero-width tokens are only `ParagraphBreak` / `Newline`.
-  `mdParseSrc_*`: the same for exactly what the driver runs, with `EventsOK` the only hypothesis.
+* `mdParse_inbounds` — UNCONDITIONAL: for every text, inner parser and EVERY event list, every
+  token `Markdown::parse` returns lies inside the text. `mdParse_total` — no panic for every event
+  list whose starts can be sliced (`StartsOK`, far weaker than `EventsOK`; nothing about ends,
+  order, disjointness, lengths). Both since the repairs in /repo (slice clamp; final clamp pass).
+* `mdParse_sorted_covering` — for every event list satisfying the decidable assumption `EventsOK`
+  (evaluated by the driver on every real event list, op `evok`): the tokens that cover characters
+  are increasing and pairwise disjoint, and (if no event has an empty unlintable text, `solidOK`)
+  zero-width tokens are only `ParagraphBreak` / `Newline`.
+  `mdParseSrc_*`: the same for exactly what the driver runs.
 * `removeIndices_arbitrary_spec` and corollaries — what `Vec::remove_indices` does for ANY queue;
   `wikilink_cleanup_safe`; the two-pipe witness: the queue really is duplicated and unsorted, and
   a `remove_indices` that calls `Vec::remove` back to front panics on it.
@@ -38,23 +40,39 @@ theorem plainEnglish_innerOK (cls : Cls) : Md.InnerOK (parsePlainFull cls) := by
 theorem utf8Bytes_charCount (src : List Char) : charCount (utf8Bytes src) = src.length :=
   charCount_utf8Bytes src
 
-/-- NO PANIC: under `EventsOK`, no slice of the `String` is off a character boundary, no slice of
-the source runs past its end, and the clean-up passes cannot panic -/
+/-- NO PANIC, FOR EVERY EVENT LIST WHOSE STARTS CAN BE SLICED (`StartsOK`: an event start that is
+ahead of the cursor is a char boundary inside the text — the one thing `source_str[a..b]` needs;
+implied by `EventsOK`, monitored on every real event list). Nothing is assumed about range ends,
+order, nesting, disjointness or text lengths: since the repair "Markdown text chunk is clamped to
+the source" the slice of the source is always in range, the final clamp pass cannot underflow on
+well-formed spans, and the clean-up passes cannot panic. -/
 theorem mdParse_total (bs : List Nat) (src : List Char) (inner : List Char → Except Panic (List Tok))
-    (ilt : Bool) (events : List MdEvent) (hN : charCount bs = src.length) (hin : Md.InnerOK inner)
-    (hev : EventsOK bs ilt events) :
-    ∃ toks, mdParse bs src inner ilt events = .ok toks := by
-  obtain ⟨toks, h, _⟩ := mdParse_spec bs src inner ilt events hN hin hev
-  exact ⟨toks, h⟩
+    (ilt : Bool) (events : List MdEvent) (hin : Md.InnerOK inner) (hst : StartsOK bs events) :
+    ∃ toks, mdParse bs src inner ilt events = .ok toks :=
+  mdParse_total_of_starts bs src inner ilt events hin hst
 
-/-- IN BOUNDS: every token of `Markdown::parse` is a well-formed span inside the text -/
+/-- IN BOUNDS, UNCONDITIONALLY: for every text, every byte list, every inner parser and EVERY event
+list, each token `Markdown::parse` returns is a well-formed span inside the text (the repair
+"Markdown tokens never reach past the end of the source": the final `retain_mut` pass). -/
 theorem mdParse_inbounds (bs : List Nat) (src : List Char) (inner : List Char → Except Panic (List Tok))
-    (ilt : Bool) (events : List MdEvent) (hN : charCount bs = src.length) (hin : Md.InnerOK inner)
-    (hev : EventsOK bs ilt events) (toks : List Tok) (h : mdParse bs src inner ilt events = .ok toks) :
-    ∀ t ∈ toks, t.span.start ≤ t.span.stop ∧ t.span.stop ≤ src.length := by
-  obtain ⟨toks', h', hg, _⟩ := mdParse_spec bs src inner ilt events hN hin hev
-  rw [h] at h'; cases h'
-  exact hg.inb
+    (ilt : Bool) (events : List MdEvent) (toks : List Tok)
+    (h : mdParse bs src inner ilt events = .ok toks) :
+    ∀ t ∈ toks, t.span.start ≤ t.span.stop ∧ t.span.stop ≤ src.length :=
+  mdParse_inb_of_ok bs src inner ilt events toks h
+
+/-- `EventsOK` implies `StartsOK` -/
+theorem eventsOK_startsOK (bs : List Nat) (ilt : Bool) (events : List MdEvent)
+    (h : EventsOK bs ilt events) : StartsOK bs events :=
+  Md.eventsOK_startsOK bs ilt events 0 0 [] h
+
+/-- both, for what the driver runs: `StartsOK` is the only hypothesis -/
+theorem mdParseSrc_total_inbounds (cls : Cls) (src : List Char) (ilt : Bool) (events : List MdEvent)
+    (hst : StartsOK (utf8Bytes src) events) :
+    ∃ toks, mdParseSrc cls src ilt events = .ok toks ∧
+      ∀ t ∈ toks, t.span.start ≤ t.span.stop ∧ t.span.stop ≤ src.length := by
+  obtain ⟨toks, h⟩ := mdParse_total (utf8Bytes src) src (parsePlainFull cls) ilt events
+    (plainEnglish_innerOK cls) hst
+  exact ⟨toks, h, mdParse_inbounds _ _ _ _ _ toks h⟩
 
 /-- ORDERED, DISJOINT: the tokens that cover characters are increasing and pairwise disjoint;
 zero-width tokens are only `ParagraphBreak` / `Newline` (given that no Code / Math / Html /
@@ -119,20 +137,51 @@ def emptyAliasText : List Char := ['[', '[', 'a', '|', ']', ']', 'b', ' ', 'c', 
 example : ¬ EventsOK (utf8Bytes emptyAliasText) false emptyAliasEvents := by decide
 
 /-- … and `Markdown::parse` returns every token after the wikilink twice (recorded finding
-`c02-md-wikilink-events`; with `![[b c|]]b c[- ` the second copy runs past the end of the
-text and the slice panics, `c01-md-wikilink-empty-alias`) -/
+`c02-md-wikilink-events`; in bounds all the same) -/
 example : mdParseSrc asciiPlus emptyAliasText false emptyAliasEvents =
     .ok [⟨⟨4, 5⟩, .punct .CloseSquare⟩, ⟨⟨5, 6⟩, .punct .CloseSquare⟩,
       ⟨⟨6, 7⟩, .word⟩, ⟨⟨7, 8⟩, .space 1⟩, ⟨⟨8, 9⟩, .word⟩, ⟨⟨9, 10⟩, .space 1⟩, ⟨⟨10, 11⟩, .word⟩,
       ⟨⟨6, 7⟩, .word⟩, ⟨⟨7, 8⟩, .space 1⟩, ⟨⟨8, 9⟩, .word⟩, ⟨⟨9, 10⟩, .space 1⟩, ⟨⟨10, 11⟩, .word⟩] := by
   decide
 
-/-- `![[b c|]]b c[- `: the events pulldown-cmark emits; the model panics where the code panics -/
-example : mdParseSrc asciiPlus
-    ['!', '[', '[', 'b', ' ', 'c', '|', ']', ']', 'b', ' ', 'c', '[', '-', ' '] false
-    [⟨.start .Paragraph, 0, 15⟩, ⟨.start .Image, 0, 8⟩, ⟨.text 1, 7, 8⟩, ⟨.text 1, 8, 9⟩,
-     ⟨.text 3, 9, 12⟩, ⟨.text 1, 12, 13⟩, ⟨.text 1, 13, 14⟩, ⟨.stop .Image, 0, 8⟩, ⟨.text 3, 9, 12⟩,
-     ⟨.text 1, 12, 13⟩, ⟨.text 1, 13, 14⟩, ⟨.stop .Paragraph, 0, 15⟩] = .error .sliceOOB := by decide
+/-- REGRESSION `![[b c|]]b c[- ` (was `c01-md-wikilink-empty-alias`: `source[13..16]` of 15
+characters panicked): the re-emitted text events are now parsed on a slice clamped to the source —
+`.ok`, in bounds (the tokens still overlap: `EventsOK` fails, `c02-md-wikilink-events` stays) -/
+def emptyAliasImageEvents : List MdEvent :=
+  [⟨.start .Paragraph, 0, 15⟩, ⟨.start .Image, 0, 8⟩, ⟨.text 1, 7, 8⟩, ⟨.text 1, 8, 9⟩,
+   ⟨.text 3, 9, 12⟩, ⟨.text 1, 12, 13⟩, ⟨.text 1, 13, 14⟩, ⟨.stop .Image, 0, 8⟩, ⟨.text 3, 9, 12⟩,
+   ⟨.text 1, 12, 13⟩, ⟨.text 1, 13, 14⟩, ⟨.stop .Paragraph, 0, 15⟩]
+
+def emptyAliasImageText : List Char :=
+  ['!', '[', '[', 'b', ' ', 'c', '|', ']', ']', 'b', ' ', 'c', '[', '-', ' ']
+
+example : mdParseSrc asciiPlus emptyAliasImageText false emptyAliasImageEvents =
+    .ok [⟨⟨13, 14⟩, .punct .Hyphen⟩, ⟨⟨14, 15⟩, .space 1⟩, ⟨⟨13, 14⟩, .punct .Hyphen⟩,
+      ⟨⟨13, 14⟩, .punct .Hyphen⟩] := by decide
+
+example : StartsOK (utf8Bytes emptyAliasImageText) emptyAliasImageEvents ∧
+    ¬ EventsOK (utf8Bytes emptyAliasImageText) false emptyAliasImageEvents := by decide
+
+/-- REGRESSION ` ```⏎⇥x` (was `c01-md-synthetic-text` / the out-of-bounds part of
+`c02-md-synthetic-text`: `Unlintable 6..9` in 7 characters): the token built from pulldown-cmark's
+empty-range tab-expansion event is clamped to `6..7` (it still overlaps the next one) -/
+example : mdParseSrc asciiPlus [' ', '`', '`', '`', '\n', '\t', 'x'] false
+    [⟨.start .CodeBlock, 1, 7⟩, ⟨.text 3, 6, 6⟩, ⟨.text 1, 6, 7⟩, ⟨.stop .CodeBlock, 1, 7⟩] =
+    .ok [⟨⟨6, 7⟩, .unlintable⟩, ⟨⟨6, 7⟩, .unlintable⟩] := by decide
+
+/-- … and in ` ```⏎⇥` the token that lay entirely past the end (`6..9` of 6) is dropped, the
+zero-width break survives the pass and is then popped as a trailing break -/
+example : mdParseSrc asciiPlus [' ', '`', '`', '`', '\n', '\t'] false
+    [⟨.start .CodeBlock, 1, 6⟩, ⟨.text 3, 6, 6⟩, ⟨.stop .CodeBlock, 1, 6⟩] = .ok [] := by decide
+
+/-- the clamp pass by itself: clamped, dropped because it became empty, kept because it was empty -/
+example : clampAll 7 [⟨⟨6, 9⟩, .unlintable⟩, ⟨⟨8, 9⟩, .word⟩, ⟨⟨9, 9⟩, .paragraphBreak⟩] =
+    .ok [⟨⟨6, 7⟩, .unlintable⟩, ⟨⟨7, 7⟩, .paragraphBreak⟩] := by decide
+
+/-- `StartsOK` is needed: an event that starts inside the two-byte `é` makes
+`source_str[0..1]` panic (no real pulldown-cmark event list does that: monitored) -/
+example : mdParseSrc asciiPlus ['é'] false [⟨.text 1, 1, 2⟩] = .error .sliceOOB := by decide
+example : ¬ StartsOK (utf8Bytes ['é']) [⟨.text 1, 1, 2⟩] := by decide
 
 /-- `solidOK` is needed for the zero-width clause: `$$$$x` is `DisplayMath("")` and the parser
 pushes an `Unlintable` of width 0 (recorded finding `c02-md-empty-math`) -/
